@@ -122,9 +122,13 @@ var extTable = map[string]string{
 	"(*crypto/sha3.SHAKE).Read":                                                  "w1",
 	"(*crypto/sha3.SHA3).Write":                                                  "",
 	"(*crypto/sha3.SHA3).Sum":                                                    "a1",
-	"encoding/asn1.Unmarshal":                                                    "",
+	"encoding/asn1.Unmarshal":                                                    "r=0",
 	"(google.golang.org/protobuf/encoding/protojson.UnmarshalOptions).Unmarshal": "",
 	"google.golang.org/protobuf/encoding/protojson.Unmarshal":                    "",
+	"(*crypto/mlkem.EncapsulationKey768).Encapsulate":                            "r=fresh;r1=fresh",
+	"(*crypto/mlkem.EncapsulationKey1024).Encapsulate":                           "r=fresh;r1=fresh",
+	"crypto/ed25519.GenerateKey":                                                 "r=fresh;r1=fresh",
+	"golang.org/x/crypto/ed25519.GenerateKey":                                    "r=fresh;r1=fresh",
 	// hashes with array results
 	"crypto/sha256.Sum256": "",
 	"crypto/sha256.Sum224": "",
@@ -156,6 +160,7 @@ type extEff struct {
 	writes, keeps []int
 	app           int    // -1 = none
 	res           string // "", fresh, opaque, any, or an index
+	res1          string // result at position 1: "" (not spoken for) or fresh
 }
 
 func parseEff(s string) extEff {
@@ -166,6 +171,8 @@ func parseEff(s string) extEff {
 			continue
 		}
 		switch {
+		case strings.HasPrefix(f, "r1="):
+			e.res1 = f[3:]
 		case strings.HasPrefix(f, "r="):
 			e.res = f[2:]
 		case f[0] == 'w':
@@ -203,7 +210,7 @@ func extLookup(fn *types.Func) (extEff, bool) {
 	// generated protobuf code of the library: getters hand out views of the message
 	if strings.HasPrefix(pkg, libPrefix+"/proto/") || strings.HasPrefix(pkg, "google.golang.org/protobuf/types/") {
 		if strings.HasPrefix(fn.Name(), "Get") {
-			return extEff{app: -1, res: "opaque"}, true
+			return extEff{app: -1, res: "0"}, true // a view of the message it is called on
 		}
 		return extEff{app: -1, res: "fresh"}, true
 	}
